@@ -22,6 +22,6 @@ def run(v, tier, seed, replay):
         s.cleanup()
     v.coverage["trusted_base"] = vlib.TRUSTED_COMMON + [
         "no hypothesis on the hash function in C01_membership_complete; instance hypotheses (key length, injective key bits, value codec round trip, boolean equalities) hold at the SHA-256 instance by construction and are exercised by the correspondence",
-        "the hyper tree is modelled at the level of its published construction (Hyper/HyperModel.v: sparse tree + shortcut leaves); the batch/cache/store code of balloon/hyper is NOT modelled: it is compared with that construction on every digest and every audit path of every run",
+        "the hyper tree is modelled at the level of its published construction (Hyper/HyperModel.v: sparse tree + shortcut leaves); the insertion code of balloon/hyper over batches, cache and store is modelled (Hyper/HyperBatch.v) and proved to compute that construction (Hyper/HyperRefine*.v); the search code (pruneToFind over batches) is compared with the spec prover on every audit path of every run, not modelled",
         "modelled rather than verified: crypto/sha256 (Gallina SHA-256 compared byte-for-byte), storage/bplus, encoding of the wire maps"]
     v.assumptions = ["log shorter than 2^64 events", "write-cache capacity large enough that no unpersisted node is evicted inside one bulk (production: 300)"]
